@@ -3,8 +3,11 @@
 (* optimizer (src/optimize.rs, src/optimize/fusions.rs, pattern_matcher.rs).     *)
 (* Each rule is a transcription of the fusion's MATCH CONDITIONS as the code     *)
 (* evaluates them - in particular a constant is "scalar" exactly when            *)
-(* ConstantPattern::matches / Graph::get_scalar say so: a float tensor with      *)
-(* exactly ONE ELEMENT, of ANY RANK (TensorBase::item()).                        *)
+(* ConstantPattern::matches / Graph::get_scalar_operand say so: a float tensor    *)
+(* with exactly ONE ELEMENT (TensorBase::item()) that has rank 0 or whose        *)
+(* consumer has another operand of KNOWN rank >= the constant's rank              *)
+(* (pattern_matcher.rs broadcasts_as_scalar, since fix f0025e4; before that any   *)
+(* rank was accepted, which this model reported as the const_r* candidates).      *)
 (*                                                                             *)
 (* Graphs are GraphEval graphs; the denotation of the fused operators            *)
 (* (FusedMatMul, Reciprocal, RepeatInterleave, ReduceMean with an `axes`          *)
@@ -150,7 +153,8 @@ FusedEval(n, ins) ==
   CASE n.op = "Reciprocal" ->
          IF T(1).dtype = "f32" /\ \A k \in 1..Len(T(1).data) : T(1).data[k] \in {1, -1} THEN Ok1(T(1)) ELSE Undefined
     [] n.op = "FusedMatMul" ->
-         \* alpha = an/ad (rational); optional third input: bias row vector of length N
+         \* alpha = an/ad (rational); optional third input: bias, fused as a row vector when b is a
+         \* matrix with as many columns, otherwise added with broadcasting (src/ops/matmul.rs)
          LET a == T(1) b == T(2)
              an == AOpt(n.attrs, "alpha_n", 1) ad == AOpt(n.attrs, "alpha_d", 1)
          IN IF ~(DefMatMul(a, b) /\ a.dtype = b.dtype) THEN Undefined ELSE
@@ -160,12 +164,9 @@ FusedEval(n, ins) ==
                           ELSE [st |-> "inexact", t |-> r]
             IN IF scaled.st # "ok" THEN Undefined
                ELSE IF Len(ins) < 3 \/ ~ins[3].p THEN Ok1(scaled.t)
-               ELSE LET bias == T(3)
-                        ncols == IF Rank(b) = 1 THEN 1 ELSE b.shape[Rank(b)]
-                    IN IF Rank(bias) # 1 \/ bias.shape[1] # ncols THEN Undefined          \* GemmError::WrongBiasSize
-                       ELSE IF Rank(b) = 1
-                            THEN Ok1(MapT(LAMBDA v : v + bias.data[1], scaled.t, scaled.t.dtype))
-                            ELSE Ok1(OnnxAdd(scaled.t, bias))
+               ELSE LET bias == T(3) IN
+                    IF Rank(bias) = 1 /\ Broadcastable(scaled.t.shape, bias.shape) THEN Ok1(OnnxAdd(scaled.t, bias))
+                    ELSE Undefined
     [] n.op = "RepeatInterleave" ->
          LET t == T(1) axis == AOpt(n.attrs, "axis", 0) reps == AOpt(n.attrs, "repeats", 1)
              os == [i \in 1..Rank(t) |-> IF i = axis + 1 THEN t.shape[i] * reps ELSE t.shape[i]]
@@ -204,10 +205,11 @@ RangeS(sq) == {sq[i] : i \in DOMAIN sq}
 InitNames(gr) == {gr.inits[i].name : i \in 1..Len(gr.inits)}
 IsConst(gr, v) == v \in InitNames(gr)
 ConstOf(gr, v) == LET i == CHOOSE i \in 1..Len(gr.inits) : gr.inits[i].name = v IN gr.inits[i]
-\* Graph::get_scalar::<f32> / ConstantPattern::matches: a float constant with exactly one element
-IsScalarF(gr, v) == IsConst(gr, v) /\ ConstOf(gr, v).dtype = "f32" /\ Len(ConstOf(gr, v).data) = 1
+\* Graph::get_scalar_operand::<f32> / ConstantPattern::matches: a float constant with exactly one
+\* element which, if its rank is > 0, is consumed together with another operand of known rank >= its
+\* own (broadcasts_as_scalar); `others` = the other operands of the consuming operator.
+IsOneF(gr, v) == IsConst(gr, v) /\ ConstOf(gr, v).dtype = "f32" /\ Len(ConstOf(gr, v).data) = 1
 ScalarVal(gr, v) == ConstOf(gr, v).data[1]
-ConstIs(gr, v, val) == IsScalarF(gr, v) /\ ScalarVal(gr, v) = val
 ProducerIdx(gr, v) == IF \E i \in 1..Len(gr.nodes) : v \in RangeS(gr.nodes[i].outs)
                       THEN CHOOSE i \in 1..Len(gr.nodes) : v \in RangeS(gr.nodes[i].outs) ELSE 0
 Consumers(gr, v) == {i \in 1..Len(gr.nodes) : v \in RangeS(gr.nodes[i].ins)}
@@ -221,6 +223,10 @@ GuardOk(gr, removed, finalOuts) ==
 ShapeOf(gr, v) == StateOf(gr).env[v].shape
 DTypeOf(gr, v) == StateOf(gr).env[v].dtype
 Known(gr, v) == StateOf(gr).st = "ok" /\ v \in DOMAIN StateOf(gr).env
+BroadcastsAsScalar(gr, ndim, others) ==
+  ndim = 0 \/ \E o \in others : Known(gr, o) /\ Len(ShapeOf(gr, o)) >= ndim
+IsScalarF(gr, v, others) == IsOneF(gr, v) /\ BroadcastsAsScalar(gr, Len(ConstOf(gr, v).shape), others \ {v})
+ConstIs(gr, v, val, others) == IsScalarF(gr, v, others) /\ ScalarVal(gr, v) = val
 
 \* Graph surgery
 \* replace node `at` by `new` (a sequence of nodes), dropping the other nodes in `removed`
@@ -254,8 +260,8 @@ IdentityRule(gr, at) ==
   ELSE IF n.op = "Identity" THEN (IF IsOutput(gr, n.outs[1]) THEN No ELSE Yes(ApplyIdentityFusion(gr, at, n.ins[1])))
   ELSE IF n.op \in {"Add", "Sub", "Mul", "Div"} /\ Len(n.ins) = 2 THEN
          LET unit == IF n.op \in {"Add", "Sub"} THEN 0 ELSE 1 IN
-         IF ConstIs(gr, n.ins[2], unit) THEN Yes(ApplyIdentityFusion(gr, at, n.ins[1]))
-         ELSE IF n.op \in {"Add", "Mul"} /\ ConstIs(gr, n.ins[1], unit) THEN Yes(ApplyIdentityFusion(gr, at, n.ins[2]))
+         IF ConstIs(gr, n.ins[2], unit, {n.ins[1]}) THEN Yes(ApplyIdentityFusion(gr, at, n.ins[1]))
+         ELSE IF n.op \in {"Add", "Mul"} /\ ConstIs(gr, n.ins[1], unit, {n.ins[2]}) THEN Yes(ApplyIdentityFusion(gr, at, n.ins[2]))
          ELSE No
   ELSE No
 
@@ -269,7 +275,7 @@ CastRule(gr, at) ==
 \* ReciprocalFusion (fusions.rs:349): 1. / x
 ReciprocalRule(gr, at) ==
   LET n == gr.nodes[at] IN
-  IF n.op = "Div" /\ ConstIs(gr, n.ins[1], 1) THEN Yes(Splice(gr, {at}, at, <<Nd("Reciprocal", <<n.ins[2]>>, n.outs, NA)>>))
+  IF n.op = "Div" /\ Len(n.ins) = 2 /\ ConstIs(gr, n.ins[1], 1, {n.ins[2]}) THEN Yes(Splice(gr, {at}, at, <<Nd("Reciprocal", <<n.ins[2]>>, n.outs, NA)>>))
   ELSE No
 
 \* ReduceMeanAxesFusion (fusions.rs:372): ReduceMean(x, axes const vector) -> ReduceMean<axes>(x),
@@ -284,13 +290,17 @@ ReduceMeanRule(gr, at) ==
                                       @@ ("noop_with_empty_axes" :> <<AOpt(n.attrs, "noop_with_empty_axes", 0)>>))>>))
   ELSE No
 
-\* MatMulAddFusion (fusions.rs:806): Add(MatMul(a, b), bias) either way round, bias a constant of rank 1
+\* MatMulAddFusion: Add(MatMul(a, b), bias) either way round, bias a constant of rank 1 whose length
+\* equals the number of columns of b when b's shape is known (b a matrix; since fix 2e97826)
 MatMulAddRule(gr, at) ==
   LET n == gr.nodes[at]
       Try(mmv, biasv) ==
         LET pi == ProducerIdx(gr, mmv) IN
         IF pi # 0 /\ gr.nodes[pi].op = "MatMul" /\ Len(gr.nodes[pi].ins) = 2 /\ IsConst(gr, biasv)
-           /\ Len(ConstOf(gr, biasv).shape) = 1 /\ GuardOk(gr, {pi, at}, RangeS(n.outs))
+           /\ Len(ConstOf(gr, biasv).shape) = 1
+           /\ (Known(gr, gr.nodes[pi].ins[2]) =>
+                 LET bs == ShapeOf(gr, gr.nodes[pi].ins[2]) IN Len(bs) >= 2 /\ bs[Len(bs)] = ConstOf(gr, biasv).shape[1])
+           /\ GuardOk(gr, {pi, at}, RangeS(n.outs))
         THEN Yes(Splice(gr, {pi, at}, at, <<Nd("FusedMatMul", <<gr.nodes[pi].ins[1], gr.nodes[pi].ins[2], biasv>>, n.outs, NA)>>))
         ELSE No
   IN IF n.op # "Add" \/ Len(n.ins) # 2 THEN No
@@ -299,7 +309,7 @@ MatMulAddRule(gr, at) ==
 \* MatMulScaleFusion (fusions.rs:855).  Scale factors are rationals [n, d].
 ScaleOf(gr, n) ==      \* get_scale_factor: [ok, sn, sd, input]
   IF n.op \notin {"Mul", "Div"} \/ Len(n.ins) # 2 THEN [ok |-> FALSE, sn |-> 1, sd |-> 1, input |-> ""]
-  ELSE LET l == IsScalarF(gr, n.ins[1]) r == IsScalarF(gr, n.ins[2]) IN
+  ELSE LET l == IsScalarF(gr, n.ins[1], {n.ins[2]}) r == IsScalarF(gr, n.ins[2], {n.ins[1]}) IN
        IF n.op = "Mul" /\ l /\ ~r THEN [ok |-> TRUE, sn |-> ScalarVal(gr, n.ins[1]), sd |-> 1, input |-> n.ins[2]]
        ELSE IF n.op = "Mul" /\ ~l /\ r THEN [ok |-> TRUE, sn |-> ScalarVal(gr, n.ins[2]), sd |-> 1, input |-> n.ins[1]]
        ELSE IF n.op = "Div" /\ ~l /\ r /\ ScalarVal(gr, n.ins[2]) # 0
@@ -324,8 +334,10 @@ MatMulScaleRule(gr, at) ==
         ELSE IF ~GuardOk(gr, removed, RangeS(n.outs)) THEN No
         ELSE Yes(Splice(gr, removed, at, <<Nd("FusedMatMul", <<lin, rin>>, n.outs, ("alpha_n" :> <<an>>) @@ ("alpha_d" :> <<ad>>))>>))
 
-\* RepeatInterleaveFusion (fusions.rs:1288): Reshape(Expand(Unsqueeze(x, axes const), *), *); only the
-\* shapes of x and of the Reshape output are examined
+\* RepeatInterleaveFusion: Reshape(Expand(Unsqueeze(x, axes const), *), *): exactly one axis of x is
+\* enlarged by an integer factor, the Unsqueeze inserts its single new axis directly after it and the
+\* Expand output is x's shape with `repeats` at the new axis (since fix 5deb06d; before only the shapes
+\* of x and of the Reshape output were examined: candidates tile / cross_axis)
 RepeatInterleaveRule(gr, at) ==
   LET n == gr.nodes[at] IN
   IF n.op # "Reshape" \/ Len(n.ins) # 2 THEN No ELSE
@@ -339,7 +351,13 @@ RepeatInterleaveRule(gr, at) ==
       diff == {i \in 1..Len(is) : is[i] # os[i]}
   IN IF Len(is) # Len(os) \/ Cardinality(diff) # 1 THEN No
      ELSE LET i == CHOOSE i \in diff : TRUE IN
+          LET axc == ConstOf(gr, gr.nodes[ui].ins[2])
+              newax == IF axc.data[1] < 0 THEN axc.data[1] + Len(is) + 1 ELSE axc.data[1]
+              t2 == gr.nodes[ei].outs[1]
+          IN
           IF is[i] = 0 \/ os[i] % is[i] # 0 THEN No
+          ELSE IF axc.dtype # "i32" \/ axc.shape # <<1>> \/ newax # i THEN No         \* new axis directly after axis i - 1
+          ELSE IF Known(gr, t2) /\ ShapeOf(gr, t2) # InsertAt(is, i + 1, os[i] \div is[i]) THEN No
           ELSE IF ~GuardOk(gr, {ui, ei, at}, RangeS(n.outs)) THEN No
           ELSE Yes(Splice(gr, {ui, ei, at}, at,
                           <<Nd("RepeatInterleave", <<x>>, n.outs, ("axis" :> <<i - 1>>) @@ ("repeats" :> <<os[i] \div is[i]>>))>>))
